@@ -87,6 +87,21 @@ def streams(ctx):
                 der.append({"req": vlib.line("latest.same", "1.0.0", "1.0.0"), "index": i,
                             "check": (lambda out, o=o: ("violation", f"opening a legacy / concurrently opened database failed: {o}")),
                             "history": [x["req"] for x in cs[max(0, i - 6):i + 1]]})
+            if op == "c.open" and o == "ok":
+                # opening is idempotent: a database that is already at the current schema (it has been opened before in this history)
+                # is left exactly as it was — rows, marks and fetch claims included
+                prev = [j for j in range(i - 1, max(-1, i - 8), -1) if vlib.decode_line(cs[j]["req"])[0] == "c.dump"]
+                nxt = [j for j in range(i + 1, min(len(cs), i + 8)) if vlib.decode_line(cs[j]["req"])[0] == "c.dump"]
+                if prev and nxt:
+                    between = [vlib.decode_line(cs[j]["req"])[0] for j in range(prev[0] + 1, nxt[0]) if j != i]
+                    first_of_history = [j for j in range(i, -1, -1) if vlib.decode_line(cs[j]["req"])[0] in ("m.make", "m.fresh")]
+                    opened_before = bool(first_of_history) and any(vlib.decode_line(cs[j]["req"])[0] == "c.open" for j in range(first_of_history[0], prev[0]))
+                    if opened_before and all(b in ("m.shape", "c.versions", "c.tag", "c.refresh", "c.filter", "c.now") for b in between):
+                        a, b = gen_cache.canon(impl[prev[0]]), gen_cache.canon(impl[nxt[0]])
+                        if a != b:
+                            der.append({"req": vlib.line("latest.same", "1.0.0", "1.0.0"), "index": i,
+                                        "check": (lambda out, a=a, b=b: ("violation", f"re-opening a database that is already at the current schema changed its contents: before {a} after {b}")),
+                                        "history": [x["req"] for x in cs[first_of_history[0]:nxt[0] + 1]]})
             if op == "m.shape" and i > 0 and vlib.decode_line(cs[i - 1]["req"])[0] == "c.open":
                 if not all(f"{k}=T" in o for k in ("pk", "vs", "dt", "fs", "nf")):
                     der.append({"req": vlib.line("latest.same", "1.0.0", "1.0.0"), "index": i,
